@@ -23,6 +23,7 @@ def run_history(plan, res, backends=None, stop_on_violation=True):
       mon = M.Monitors()
       classes = []
       illegal = 0
+      es_seen = set()
       for step, op in enumerate(plan['ops']):
         kind = op[0]
         if kind == 'Advance':
@@ -47,6 +48,7 @@ def run_history(plan, res, backends=None, stop_on_violation=True):
             c = {'kind': kind, 'name': names[op[1]['sel'] % len(names)]}
         else:
           c = O.resolve(op, O.View(world.sv))
+        es_before = world.calls.get('EarlyStop', 0)
         raw = O.execute(world.sv, c, cfg)
         out = O.outcome_norm(kind, raw)
         if out[0] == 'ok' and out[1] == 'op' and out[2]['name'] not in world.op_names:
@@ -67,6 +69,14 @@ def run_history(plan, res, backends=None, stop_on_violation=True):
             res.bump('probe.suggest-served')
         if kind == 'CheckES' and out[0] == 'ok':
           res.bump('probe.early-stop-answered')
+          key = (c['study'], c['trial'])
+          if key in es_seen and world.calls.get('EarlyStop', 0) > es_before:
+            res.bump('probe.early-stop-recycled')
+          elif key in es_seen:
+            res.bump('probe.early-stop-from-recent-operation')
+          es_seen.add(key)
+        if kind in ('DeleteStudy', 'DeleteTrial') and out[0] == 'ok':
+          es_seen = {k for k in es_seen if k[0] != c['study']}
         if kind == 'UpdateMetadata' and out[:3] == ('ok', 'md', 'error'):
           res.bump('probe.metadata-rejected-missing-trial')
         if mism:
@@ -113,7 +123,8 @@ class C01(runner.Check):
   budget_s = {'quick': 100, 'thorough': 1200}
   chunk = 20
   probes = ['probe.suggest-served', 'probe.early-stop-answered',
-            'probe.metadata-rejected-missing-trial', 'clock.jump_back', 'clock.freeze']
+            'probe.metadata-rejected-missing-trial', 'clock.jump_back', 'clock.freeze',
+            'probe.early-stop-recycled', 'probe.early-stop-from-recent-operation']
 
   def gen(self, rng, idx, tier):
     algo, space = rng.choice(ALGOS)
